@@ -1259,11 +1259,22 @@ impl<'arena> PrettyFormatter<'arena> {
         let document = match &self.arena.terms[&term] {
             | Term::Meta(MetaT(meta, inner)) => match meta.specialize::<FormatMeta>() {
                 | Ok(Some(directive)) => self.format_annotated(term, meta, *inner, directive),
-                | Ok(None) | Err(_) => match &self.arena.terms[inner] {
-                    // A commentless hole payload collapses into the parenthesized sugar.
+                | Ok(None) | Err(_) => match &self.arena.terms[&self.transparent_term_group(*inner)] {
+                    // A commentless hole payload collapses into the parenthesized sugar,
+                    // also when it sits in redundant parentheses (they would be dropped
+                    // anyway, and the next run would then collapse the bare hole).
                     // A commented hole keeps the bracket form so its comments survive.
                     | Term::Hole(_)
-                        if self.arena.trivia.leading_comments((*inner).into()).is_empty()
+                        if self
+                            .arena
+                            .trivia
+                            .leading_comments(self.transparent_term_group(*inner).into())
+                            .is_empty()
+                            && self
+                                .arena
+                                .trivia
+                                .trailing_comments(self.transparent_term_group(*inner).into())
+                                .is_empty()
                             && self.arena.trivia.trailing_comments((*inner).into()).is_empty() =>
                     {
                         RcDoc::text("@(")
@@ -1830,6 +1841,19 @@ impl<'arena> PrettyFormatter<'arena> {
                 }
                 | _ => return None,
             }
+        }
+    }
+
+    /// Look through singleton groups that the printer would drop.
+    fn transparent_term_group(&self, term: TermId) -> TermId {
+        if let Term::Paren(Paren(terms)) = &self.arena.terms[&term]
+            && let [inner] = terms.as_slice()
+            && self.should_elide_parentheses(term.into(), (*inner).into())
+            && self.arena.trivia.leading_comments(term.into()).is_empty()
+        {
+            self.transparent_term_group(*inner)
+        } else {
+            term
         }
     }
 
